@@ -41,7 +41,7 @@ BAD_LINKS = ['int', 'none', 'object', 'wrong-param', 'two-params', 'zero-params'
 def cases_(draw):
     big = draw(st.integers(0, 12)) == 0
     sizes = (0, 1, 2, 3, 5) if not big else (2, 101, 150)
-    pkg = draw(gp.input_package(1, 3, sizes=sizes))
+    pkg = draw(gp.input_package(1, 3, sizes=sizes, types=gp.IN_TYPES + ['array', 'object']))
     prog = draw(gp.programs(2, 8, pkg=pkg))
     n = len(prog['steps'])
     cuts = sorted(draw(st.lists(st.integers(1, max(1, n - 1)), max_size=3, unique=True))) if n > 1 else []
